@@ -250,7 +250,7 @@ class add_project:
 # ------------------------------------------------------------------------------------------ delete_*
 @contract('pydbml.database:Database.delete_table')
 class delete_table:
-    properties = ('C09',)
+    properties = ('C09', 'C17')      # C17: a removed table is detached (it is the stored object that is detached)
     params = {'self': 'Database', 'obj': 'Table'}
 
     def requires_inv(self, obj):
